@@ -2,7 +2,7 @@
 # verify_seed.sh <Cxx> <k>: confirm a sub-agent's seeded change in its scratch worktree and file it under /verif/seeded/<Cxx>/.
 # Confirms: demo passes on the clean worktree, fails with the patch; the set of passing tests is unchanged by the patch.
 set -u
-P="$1"; K="$2"; WT=/tmp/wt-$P; S=$WT/_seed
+P="$1"; K="$2"; PFX="${3:-wt}"; TAG="${4:-}"; WT=/tmp/$PFX-$P; S=$WT/_seed
 cd "$WT" || exit 9
 git checkout -q -- . ; git stash list | grep -q . && echo "note: shared stash not empty"
 [ -f "$S/patch$K.diff" ] || { echo "no patch$K"; exit 9; }
@@ -17,13 +17,13 @@ lost=$(comm -23 /tmp/seed_baseline_pass.txt /tmp/seed_mut_pass.txt | wc -l)
 echo "$P/$K: demo clean rc=$rc_clean, mutant rc=$rc_mut; baseline pass=$(wc -l < /tmp/seed_baseline_pass.txt) mutant pass=$(wc -l < /tmp/seed_mut_pass.txt) lost=$lost"
 if [ $rc_clean -eq 0 ] && [ $rc_mut -ne 0 ] && [ $lost -eq 0 ]; then
   D=/verif/seeded/$P; mkdir -p $D
-  cp "$S/patch$K.diff" $D/patch$K.diff; cp "$S/demo$K.py" $D/demo$K.py
-  /venv/bin/python - "$S/meta$K.json" "$D/meta$K.json" "$P" "$K" "$(wc -l < /tmp/seed_baseline_pass.txt)" "$(tail -3 /tmp/seed_demo_mut.log | tr '\n' ' ' | cut -c1-300)" <<'PY'
+  cp "$S/patch$K.diff" $D/${TAG}patch$K.diff; cp "$S/demo$K.py" $D/${TAG}demo$K.py
+  /venv/bin/python - "$S/meta$K.json" "$D/${TAG}meta$K.json" "$P" "$K" "$(wc -l < /tmp/seed_baseline_pass.txt)" "$(tail -3 /tmp/seed_demo_mut.log | tr '\n' ' ' | cut -c1-300)" <<'PY'
 import json,sys
 src,dst,p,k,npass,tail=sys.argv[1:7]
 try: m=json.load(open(src))
 except Exception: m={}
-m.update(property=p, breaks_property=p, confirmed=dict(by='main session in scratch worktree /tmp/wt-%s (base commit cba3337)'%p,
+m.update(property=p, breaks_property=p, confirmed=dict(by='main session in scratch worktree /tmp/wt-%s (base: /repo HEAD at the time of seeding)'%p,
   ran=['demo%s.py on clean tree -> exit 0'%k,'git apply patch%s.diff; demo%s.py -> non-zero exit'%(k,k),'pytest with the patch: all %s tests passing on the clean tree still pass'%npass],
   demo_failure_tail=tail))
 json.dump(m,open(dst,'w'),indent=1)
